@@ -7,21 +7,27 @@
 #include <string.h>
 #include <unistd.h>
 #include <fcntl.h>
+#include <sys/syscall.h>
+/* raw system calls: harnesses may override open/read/close/write with their file-system model */
+#define RAW_OPEN(f)      ((int)syscall(SYS_openat, AT_FDCWD, (f), O_RDONLY))
+#define RAW_READ(d,b,n)  ((long)syscall(SYS_read, (d), (b), (n)))
+#define RAW_CLOSE(d)     ((void)syscall(SYS_close, (d)))
+#define RAW_WRITE(b,n)   ((long)syscall(SYS_write, 1, (b), (n)))
 static uint64_t vec[4096];
 static unsigned vec_n, vec_i;
 static char     obuf[1 << 16];
 static unsigned olen;
-static void flush_out(void) { unsigned o = 0; while (o < olen) { long r = write(1, obuf + o, olen - o); if (r <= 0) break; o += (unsigned)r; } olen = 0; }
+static void flush_out(void) { unsigned o = 0; while (o < olen) { long r = RAW_WRITE(obuf + o, olen - o); if (r <= 0) break; o += (unsigned)r; } olen = 0; }
 static void put(const char *s) { unsigned n = (unsigned)strlen(s); if (olen + n >= sizeof(obuf)) flush_out(); if (n < sizeof(obuf)) { memcpy(obuf + olen, s, n); olen += n; } }
 static void putu(uint64_t v) { char b[24]; int i = 23; b[i] = 0; do { b[--i] = (char)('0' + v % 10); v /= 10; } while (v); put(b + i); }
 void vp_rt_init(void)
 {
    const char *f = getenv("VP_VECTOR");
    vec_n = 0; vec_i = 0;
-   if (f) { int fd = open(f, O_RDONLY); if (fd >= 0) { long r = read(fd, vec, sizeof(vec)); if (r > 0) vec_n = (unsigned)(r / 8); close(fd); } }
+   if (f) { int fd = RAW_OPEN(f); if (fd >= 0) { long r = RAW_READ(fd, vec, sizeof(vec)); if (r > 0) vec_n = (unsigned)(r / 8); RAW_CLOSE(fd); } }
 }
 void vp_rt_fini(void) { put("END\n"); flush_out(); }
-void vp_native_exit(void) { flush_out(); _exit(0); }
+void vp_native_exit(void) { flush_out(); syscall(SYS_exit_group, 0); for (;;) {} }
 uint64_t vp_nondet(void) { return vec_i < vec_n ? vec[vec_i++] : (vec_i++, 0); }
 uint64_t vp_range(uint64_t lo, uint64_t hi)
 {
